@@ -190,6 +190,15 @@ theorem failAll_stream (n : String) (base : Nat) (flt : Option Addr) :
        h.2.addFail ⟨"", 0, false, none⟩ rfl rfl rfl rfl (Nat.le_refl _)⟩
     rwa [List.append_assoc, List.singleton_append] at this
 
+/-- `noteNodeFailed` only touches the rollback bookkeeping -/
+theorem wp_noteNodeFailed_frame (n : String) (rs : List R) (Q : Out Unit → MS R → Prop) (flt : Option Addr) (ms : MS R)
+    (h : ∀ fl, Q (.ok ()) { ms with failed := fl }) : wp (noteNodeFailed n rs) Q flt ms := by
+  unfold noteNodeFailed
+  rw [wp_ite]
+  split
+  · exact h _
+  · exact h ms.failed
+
 /-- plan prefix `pre` handled: one message per instance so far, all successes truthful -/
 def S (pre : List (String × List R)) (ms : MS R) : Prop :=
   ms.msgs.length = planned pre ∧ Truth ms
@@ -207,7 +216,12 @@ theorem deployNode_stream (pre : List (String × List R)) (p : String × List R)
   · simp only [attK_fail, wpK_ok, Bool.false_eq_true, if_false]
     have hs : SI (planned pre) [] (failMS ms "storeGetNode" p.1) :=
       ⟨by simpa using h.1, h.2.same rfl rfl rfl (Nat.le_refl _)⟩
-    apply wp_mono (failAll_stream p.1 (planned pre) flt p.2 [] _ hs)
+    rw [wp_bind]
+    apply wp_noteNodeFailed_frame
+    intro fl
+    simp only [wpK_ok]
+    have hs' : SI (planned pre) [] { failMS ms "storeGetNode" p.1 with failed := fl } := hs
+    apply wp_mono (failAll_stream p.1 (planned pre) flt p.2 [] _ hs')
     intro o ms' h'
     obtain ⟨rfl, h'⟩ := h'
     exact conv ms' h'
@@ -467,7 +481,12 @@ theorem deployNode_clean (s0 : State R) (hids : ∀ w ∈ s0.wls, w.id < s0.next
   split
   · simp only [attK_fail, wpK_ok, Bool.false_eq_true, if_false]
     have hf : Clean s0 (failMS ms "storeGetNode" p.1) := h.same rfl rfl rfl (Nat.le_refl _) rfl rfl
-    refine pres_forEach (I := Clean s0) p.2 (fun r _ => ?_) flt _ hf
+    rw [wp_bind]
+    apply wp_noteNodeFailed_frame
+    intro fl
+    simp only [wpK_ok]
+    have hf' : Clean s0 { failMS ms "storeGetNode" p.1 with failed := fl } := hf
+    refine pres_forEach (I := Clean s0) p.2 (fun r _ => ?_) flt _ hf'
     intro flt' ms' h'
     simp only [wp_bind, wp_noteFailed, wp_emit, wpK_ok]
     exact h'.same (by simp [okIds_append_fail]) rfl rfl (Nat.le_refl _) rfl rfl
